@@ -31,8 +31,8 @@ theorem AgreeOn.flatMap {α : Type} {l : List α} {f : α → List String} {c1 c
 
 /-! ## the pieces of a closure -/
 
-theorem check_congr (ty : VarTy) (name : String) (c1 c2 : Ctx) (h : Ctx.get c1 name = Ctx.get c2 name) :
-    ty.check name c1 = ty.check name c2 := by
+theorem check_congr (defs : ID.Defs) (ty : VarTy) (name : String) (c1 c2 : Ctx) (h : Ctx.get c1 name = Ctx.get c2 name) :
+    ty.check defs name c1 = ty.check defs name c2 := by
   cases ty <;> simp [VarTy.check, h]
 
 theorem mem_inputNames {g : Drg} {ids : List String} {id : String} {i : InputData}
@@ -67,7 +67,7 @@ theorem typedInputs_congr (g : Drg) (ids : List String) (c1 c2 acc : Ctx)
     | some i =>
       have hk : Ctx.get c1 i.name = Ctx.get c2 i.name :=
         h _ (mem_inputNames (List.mem_cons_self) hf)
-      simp only [check_congr i.ty i.name c1 c2 hk]
+      simp only [check_congr g.items i.ty i.name c1 c2 hk]
       exact ih _ hrest
 
 theorem overwrite_congr (self c1 c2 : Ctx) (h : ∀ k ∈ Ctx.keys self, Ctx.get c1 k = Ctx.get c2 k) :
@@ -183,15 +183,15 @@ theorem serviceInputDecisions_congr (g : Drg) (s : Service) (results c1 c2 : Ctx
   unfold serviceInputDecisions
   simp only []
   have e : ∀ (vars : List (String × VarTy)) (acc : Ctx), (∀ v ∈ vars, v.1 ∈ g.decisionVarNames s.inputDecisions) →
-      vars.foldl (fun c v => Ctx.set c v.1 (v.2.check v.1 c1)) acc =
-      vars.foldl (fun c v => Ctx.set c v.1 (v.2.check v.1 c2)) acc := by
+      vars.foldl (fun c v => Ctx.set c v.1 (v.2.check g.items v.1 c1)) acc =
+      vars.foldl (fun c v => Ctx.set c v.1 (v.2.check g.items v.1 c2)) acc := by
     intro vars
     induction vars with
     | nil => intro _ _; rfl
     | cons v vars ih =>
       intro acc hm
       simp only [List.foldl_cons]
-      rw [check_congr v.2 v.1 c1 c2 (hv _ (hm v List.mem_cons_self))]
+      rw [check_congr g.items v.2 v.1 c1 c2 (hv _ (hm v List.mem_cons_self))]
       exact ih _ (fun v' hv' => hm v' (List.mem_cons_of_mem _ hv'))
   have hm : ∀ v ∈ g.inputDecisionVars s, v.1 ∈ g.decisionVarNames s.inputDecisions := by
     intro v hv'
@@ -309,9 +309,9 @@ theorem bkmArgs_congr (params : List (String × FType)) (c1 c2 : Ctx)
 theorem bkm_own_entry (g : Drg) (env : Env) (gf : Nat) (id : String) (b : Bkm) (input evaluated : Ctx)
     (hf : g.findBkm id = some b)
     (h : (graphAt g env divergeGraph gf).bkm id input [] = .ok evaluated) :
-    Ctx.get evaluated b.var = some (.fn b.params b.body b.ty.ftype) := by
+    Ctx.get evaluated b.var = some (.fn b.params b.body (b.ty.ftype g.items)) := by
   have key : ∀ prev : Graph, (graphStep g env prev).bkm id input [] = .ok evaluated →
-      Ctx.get evaluated b.var = some (.fn b.params b.body b.ty.ftype) := by
+      Ctx.get evaluated b.var = some (.fn b.params b.body (b.ty.ftype g.items)) := by
     intro prev h
     simp only [graphStep, hf, bkmClosure] at h
     split at h
